@@ -215,8 +215,62 @@ func (f *crashFam) Gen(r *hx.Run) {
 			r.Sample(map[string]interface{}{"case": c, "validators": n, "blocks": L})
 		}
 	}
+	f.bigBlocks(r)
 	if r.Thorough() {
 		f.longChain(r)
+	}
+}
+
+// bigBlocks: blocks whose write set has well over 1000 raw writes, all made by read-modify-write transactions (one
+// transaction increments 1100 / 1050 distinct counters), persisted with a crash at every point and with further
+// crashes inside recovery. A state-store batch that is not committed as a whole shows up as a double application.
+func (f *crashFam) bigBlocks(r *hx.Run) {
+	rangeTx := func(g *chainGen, n, d int) txSpec {
+		g.nonce++
+		return txSpec{nonce: g.nonce, prog: []byte{6, byte(n >> 8), byte(n), byte(d)}}
+	}
+	for k := 0; k < 4; k++ {
+		r.Case(fmt.Sprintf("crash-big-%d", k))
+		g := &chainGen{r: r, w: &f.world}
+		if !okRes(g.genesis(3, "test", k%2 == 0, true, nil)) {
+			continue
+		}
+		// block 1: the range is created (plain submission)
+		b1 := g.next(1)
+		b1.txs = append(b1.txs, rangeTx(g, 1100, 1))
+		g.def(b1)
+		if !okRes(r.Do("add " + b1.name)) {
+			continue
+		}
+		g.committed(b1)
+		// block 2: every counter is read and incremented again; crash at point k
+		b2 := g.next(0)
+		b2.txs = []txSpec{rangeTx(g, 1100, 2), rangeTx(g, 300, 3)}
+		g.def(b2)
+		res := r.Do(fmt.Sprintf("crash %s %d", b2.name, k))
+		if strings.HasPrefix(res, "crashed ok") {
+			r.Nontrivial(fmt.Sprintf("big/k%d/crash", k))
+		}
+		if k == 0 {
+			r.Do("add " + b2.name)
+		}
+		g.committed(b2)
+		// block 3: again, with further crashes inside recoverStore
+		b3 := g.next(1)
+		b3.txs = append(b3.txs, rangeTx(g, 1050, 5))
+		g.def(b3)
+		res = r.Do(fmt.Sprintf("crashr %s %d %d,%d", b3.name, (k+1)%4, r.Rng.Intn(3), r.Rng.Intn(3)))
+		if strings.HasPrefix(res, "crashed") && strings.Contains(res, " ok ") {
+			r.Nontrivial(fmt.Sprintf("big/k%d/crashr", (k+1)%4))
+		}
+		if (k+1)%4 == 0 {
+			r.Do("add " + b3.name)
+		}
+		g.committed(b3)
+		b4 := g.next(1)
+		g.def(b4)
+		r.Do("sub " + b4.name)
+		r.Do("obs")
 	}
 }
 
@@ -547,6 +601,7 @@ func (f *quorumFam) Gen(r *hx.Run) {
 				continue
 			}
 			f.headers(r, g, c.n)
+			f.strippedAfterHeader(r, g, c.n)
 			f.rejectedAnnouncement(r, g, c.n)
 			f.headerSyncAhead(r, g, c.n)
 			f.handover(r, g, c.n)
@@ -985,4 +1040,64 @@ func (f *quorumFam) headerSyncAhead(r *hx.Run, g *chainGen, n int) {
 		}
 	}
 	r.Do("obs")
+}
+
+
+// strippedAfterHeader: the genuine signed header goes through AddHeader; then the same block (same hash: the header hash
+// does not cover bookkeepers and signatures) is submitted with the signatures stripped, truncated below the threshold,
+// or replaced by outsiders' valid signatures; finally the genuine block.
+func (f *quorumFam) strippedAfterHeader(r *hx.Run, g *chainGen, n int) {
+	m := refThreshold(len(g.set), g.net, 0)
+	b := g.next(1)
+	g.def(b)
+	if !okRes(r.Do("hdr " + b.name)) {
+		return
+	}
+	out := g.outsiders(2)
+	variants := []struct {
+		tag  string
+		bks  []int
+		sigs []string
+	}{
+		{"stripped", nil, nil},
+		{"sigs-only-stripped", b.bks, nil},
+	}
+	if m >= 2 {
+		variants = append(variants, struct {
+			tag  string
+			bks  []int
+			sigs []string
+		}{"truncated", b.bks[:m-1], b.sigs[:m-1]})
+	}
+	if len(out) > 0 {
+		var os []string
+		for _, k := range out {
+			os = append(os, fmt.Sprintf("s%d", k))
+		}
+		variants = append(variants, struct {
+			tag  string
+			bks  []int
+			sigs []string
+		}{"outsiders", out, os})
+	}
+	for i, v := range variants {
+		c := *b
+		c.name = fmt.Sprintf("%sx%d", b.name, i)
+		c.bks, c.sigs = append([]int{}, v.bks...), append([]string{}, v.sigs...)
+		g.def(&c)
+		op := "add"
+		if (i+n)%2 == 1 {
+			op = "sub"
+		}
+		res := r.Do(op + " " + c.name)
+		r.Hist("stripped-after-header." + v.tag + "." + verdictOf(res))
+		r.Nontrivial(fmt.Sprintf("stripped-after-header/n%d/%s/%s/%s", n, v.tag, op, verdictOf(res)))
+		if okRes(res) && strings.Contains(res, "tip="+c.hash) {
+			g.committed(&c) // (reported by the oracle)
+			return
+		}
+	}
+	if okRes(r.Do("add " + b.name)) {
+		g.committed(b)
+	}
 }
